@@ -63,7 +63,7 @@ VarNames(ptoks) == {ptoks[i].name : i \in {j \in 1..Len(ptoks) : ptoks[j].kind #
 ---------------------------------------------------------------------------
 \* Regex catalogue (slash-free).  ReFull: the whole string matches.
 \* ReSearch: some substring matches (Go's regexp.MatchString).
-ReCatalogue == {"[0-9]+", "[a-z]+", "[a-z0-9]+", "[A-Z][A-Z]", "[0-9]{2}", "(cats|dogs)"}
+ReCatalogue == {"[0-9]+", "[a-z]+", "[a-z0-9]+", "[A-Z][A-Z]", "[0-9]{2}", "(cats|dogs)", "(a|b)-(c|d)"}
 
 ReFull(re, s) ==
   CASE re = "[0-9]+"     -> Len(s) >= 1 /\ AllIn(s, Digit)
@@ -72,6 +72,7 @@ ReFull(re, s) ==
     [] re = "[A-Z][A-Z]" -> Len(s) = 2 /\ AllIn(s, Upper)
     [] re = "[0-9]{2}"   -> Len(s) = 2 /\ AllIn(s, Digit)
     [] re = "(cats|dogs)" -> s \in {"cats", "dogs"}      \* an alternation with its own capturing group
+    [] re = "(a|b)-(c|d)" -> s \in {"a-c", "a-d", "b-c", "b-d"}   \* two groups of its own, neither spans the expression
     [] OTHER             -> FALSE
 
 ReSearch(re, s) ==
@@ -81,6 +82,7 @@ ReSearch(re, s) ==
     [] re = "[A-Z][A-Z]" -> \E i \in 1..(Len(s) - 1) : Ch(s, i) \in Upper /\ Ch(s, i + 1) \in Upper
     [] re = "[0-9]{2}"   -> \E i \in 1..(Len(s) - 1) : Ch(s, i) \in Digit /\ Ch(s, i + 1) \in Digit
     [] re = "(cats|dogs)" -> StrContains(s, "cats") \/ StrContains(s, "dogs")
+    [] re = "(a|b)-(c|d)" -> \E x \in {"a-c", "a-d", "b-c", "b-d"} : StrContains(s, x)
     [] OTHER             -> FALSE
 
 ReSupported(re) == re \in ReCatalogue
